@@ -83,10 +83,14 @@ def evaluate_expression(expression: str, context: dict[str, Any]) -> Any:
 
     try:
         tree = ast.parse(expr, mode="eval")
-    except SyntaxError as e:
+    except (SyntaxError, ValueError, RecursionError, MemoryError) as e:
+        # ValueError: lone surrogates (UnicodeEncodeError); RecursionError / MemoryError: nesting too deep for the parser
         raise ExpressionError(f"Invalid expression syntax: {e}") from e
 
-    return _eval_node(tree.body, context)
+    try:
+        return _eval_node(tree.body, context)
+    except RecursionError as e:  # _eval_node recurses once per nesting level
+        raise ExpressionError("Expression is nested too deeply") from e
 
 
 def _eval_node(node: ast.AST, context: dict[str, Any]) -> Any:
@@ -118,7 +122,10 @@ def _eval_node(node: ast.AST, context: dict[str, Any]) -> Any:
         else:
             key = _eval_node(node.slice, context)
         if isinstance(value, dict):
-            return value.get(key)
+            try:
+                return value.get(key)
+            except TypeError as e:  # unhashable key: d[[1]]
+                raise ExpressionError(f"Cannot use {type(key).__name__} as a dictionary key: {e}") from e
         if isinstance(value, (list, tuple)) and isinstance(key, int):
             try:
                 return value[key]
@@ -155,7 +162,10 @@ def _eval_node(node: ast.AST, context: dict[str, Any]) -> Any:
         unary_func = _SAFE_UNARY_OPS.get(type(node.op))
         if unary_func is None:
             raise ExpressionError(f"Unsupported unary operator: {type(node.op).__name__}")
-        return unary_func(operand)
+        try:
+            return unary_func(operand)
+        except TypeError as e:  # -"a", -None, -[1]
+            raise ExpressionError(f"Cannot apply {type(node.op).__name__} to {type(operand).__name__}: {e}") from e
 
     if isinstance(node, ast.IfExp):
         test = _eval_node(node.test, context)
